@@ -207,6 +207,15 @@ def make_check_b(name, s):
             i = next((j for j in range(min(len(b), len(b2))) if b[j] != b2[j]), min(len(b), len(b2)))
             raise Violation("mismatch:bytes_roundtrip", {"offset": i, "got_len": len(b2), "want_len": len(b),
                                                          "got": bytes(b2[max(0, i - 4):i + 12]).hex(), "want": bytes(b[max(0, i - 4):i + 12]).hex()})
+        # the decoded structure (whose byte strings are slices of the response: bytearrays) re-encodes to the
+        # same bytes every time, not only the first time
+        with lib("marshall again"):
+            b3 = s["marshall"](d)
+        if bytes(b3) != bytes(b):
+            i = next((j for j in range(min(len(b), len(b3))) if b[j] != b3[j]), min(len(b), len(b3)))
+            raise Violation("mismatch:bytes_roundtrip_second_encode",
+                            {"offset": i, "got_len": len(b3), "want_len": len(b),
+                             "got": bytes(b3[max(0, i - 4):i + 12]).hex(), "want": bytes(b[max(0, i - 4):i + 12]).hex()})
         return len(b) > 24 and sum(1 for x in b if x) >= 4, ("b",)
     return check
 
